@@ -911,6 +911,30 @@ func c19c(c *Ctx) {
 					}
 				}
 			}
+			// ... and nowhere else: inside a piece the characters are the string's content. A
+			// whitespace skip inside the pieces loop either follows the closing quote (nothing is
+			// copied between it and the next test for an opening quote) or stands under "a line
+			// break inside the string was just skipped" (the documented continuation: newline
+			// and indentation become one blank).
+			for k, ci := range callsIn(rs) {
+				if callee(ci) != sw || !loopBody(outer)[ci.Block()] {
+					continue
+				}
+				underNewline := false
+				for _, l := range c.mustLits(rs, ci.Block()) {
+					if strings.HasPrefix(l, "+") && strings.Contains(l, "skipNewlineWhitespace") {
+						underNewline = true
+					}
+				}
+				if underNewline {
+					continue
+				}
+				_, copies := existsPath(pathQuery{from: after(ci.(ssa.Instruction)), target: func(in ssa.Instruction) bool {
+					cc, ok := in.(ssa.CallInstruction)
+					return ok && strings.HasPrefix(calleeName(cc), "(*strings.Builder).Write")
+				}, stopAt: func(in ssa.Instruction) bool { return in.Block() == outer && idxInBlock(in) == 0 }})
+				c.Check(!copies, fmt.Sprintf("readString/no-skip-inside-a-piece@%d", k), c.W.Pos(ci.Pos()), "whitespace is skipped only between pieces", "readString skips whitespace at a place from where it goes on copying characters without having looked for the next opening quote: blanks that belong to the string's content are swallowed")
+			}
 			c.Check(skipped, "readString/whitespace-between-pieces", c.W.FuncPos(rs), "all whitespace after a closing quote is skipped before the next piece is looked for", "after a string piece the lexer can look for the next opening quote without having skipped all whitespace: \"a\" \"b\" on one line and across lines would tokenise differently")
 		}
 	}
